@@ -10,7 +10,9 @@ CFG = dict(
          "bounded-lookahead permutation of the ids, so values land out of id order deterministically; primary stores: "
          "2-4 goroutines committing concurrently), MaxIOConcurrency 1..3, value-log file size 64..512 bytes, value "
          "lengths 0 / tiny / fsz-1,fsz,fsz+1 / >2*fsz, empty values anywhere in a tx, embedded values on/off, "
-         "failing committers leaving orphan values, metadata-only txs; families: every cut point 0..T+1 on one "
+         "failing committers leaving orphan values, metadata-only txs, MaxConcurrency 1..4 with a committer launched "
+         "MORE than MaxConcurrency ids ahead (one engineered instance at the start of every run: the last tx alone "
+         "runs ahead, one half-file value per tx, every cut point); families: every cut point 0..T+1 on one "
          "reproduced history; truncations in the middle of the history (some while a committer is stalled), the "
          "same cut twice, decreasing cuts; after truncation ReadTx+ReadValue of every entry, ExportTx of every tx "
          "under a 2 s liveness bound with the _valBsMux state observed, Get/Resolve of every key, dual proof, "
